@@ -151,6 +151,11 @@ func (p propC04) Gen(r *Rng, tier string) *World {
 			w.Steps = append(w.Steps, Step{Op: "probe", Arg: lat})
 		}
 	}
+	if w.Extra["real_fetcher"] == "1" {
+		// a second request after the first: its own binding, its own (empty) context
+		w.Calls = append(w.Calls, Plan{Bind: g.Binding()})
+		w.Extra["two_requests"] = "1"
+	}
 	// faults stop: everything still missing arrives, then a final probe
 	for _, pi := range r.Perm(len(vars)) {
 		w.Steps = append(w.Steps, Step{Op: "warm", Name: vars[pi], Arg: fmt.Sprint(r.Range(1, 50))})
@@ -283,6 +288,7 @@ func (pr propC04) Run(w *World, st *Stats) *Violation {
 		reqFetcher := &SimFetcher{}
 		reqCtx := &eval.Ctx{VariableFetcher: reqFetcher}
 		reuse := w.Extra["fresh_ctx"] != "1"
+		var realCtx *eval.Ctx // set per request in real-fetcher timelines
 		// A request's Ctx is also shared by rules compiled under OTHER configs
 		// (a name-keyed fetcher makes that legitimate): a sibling compiled from
 		// the same source with the variable keys rotated is evaluated on the
@@ -325,7 +331,17 @@ func (pr propC04) Run(w *World, st *Stats) *Violation {
 				p.FailAt = []int{failAt}
 			}
 			var o Outcome
-			if w.Extra["real_fetcher"] == "1" && w.Cfg.Undefined && failAt < 0 {
+			if realCtx != nil && failAt < 0 {
+				// timeline with the library's own map fetcher: ONE context per
+				// request, created empty, filled by Set as values arrive (the
+				// TryEval -> DNE -> fetch -> Set -> TryEval flow of the README)
+				env := NewEnv(ops, &p)
+				env.Phase = "tryeval"
+				c.Host.CompileEnv = env
+				o = c.RunCtx(realCtx, env, p.Kind)
+				c.Host.CompileEnv = nil
+				st.Probe("real_map_fetcher_set_flow_probes")
+			} else if w.Extra["real_fetcher"] == "1" && w.Cfg.Undefined && failAt < 0 {
 				// the library's own map-backed fetcher (NewCtxFromVars in
 				// undefined-variable mode): a variable is available iff it is in
 				// the map handed over
@@ -637,88 +653,110 @@ func (pr propC04) Run(w *World, st *Stats) *Violation {
 		}
 
 		// ---- timeline (discrete-event) ----
-		avail := map[string]bool{}
-		clock := int64(0)
-		truth := evalFull(full.Bind)
-		usesClock := false
-		w.Prog.Walk(func(x *Node) {
-			if x.K == KOp && ops[x.Name] != nil && ops[x.Name].Kind == "now" {
-				usesClock = true
+		nreq := 1
+		if w.Extra["two_requests"] == "1" && len(w.Calls) >= 2 {
+			nreq = 2 // two requests, one after the other, each with its own binding and context
+		}
+		for req := 0; req < nreq; req++ {
+			full = &w.Calls[req]
+			useSet := w.Extra["real_fetcher"] == "1" && w.Cfg.Undefined
+			if useSet {
+				realCtx = eval.NewCtxFromVars(c.Conf, map[string]interface{}{})
 			}
-		})
-		var lastDef interface{}
-		haveDef := false
-		growing := true // availability has only grown since lastDef
-		for si, s := range w.Steps {
-			var lat int64
-			fmt.Sscan(s.Arg, &lat)
-			clock += lat
-			st.Ticks += lat
-			st.Steps++
-			switch s.Op {
-			case "warm":
-				avail[s.Name] = true
-				st.Faults["warm"]++
-			case "evict":
-				if avail[s.Name] {
-					delete(avail, s.Name)
-					growing = false
-					st.Faults["evict"]++
+			avail := map[string]bool{}
+			clock := int64(0)
+			truth := evalFull(full.Bind)
+			usesClock := false
+			w.Prog.Walk(func(x *Node) {
+				if x.K == KOp && ops[x.Name] != nil && ops[x.Name].Kind == "now" {
+					usesClock = true
 				}
-			case "fetch_fail":
-				// the fetch failed; the prefetcher retries later: nothing arrives now
-				st.Faults["fetch_retry"]++
-			case "probe":
-				var unavail []string
-				for _, v := range vars {
-					if !avail[v] {
-						unavail = append(unavail, v)
-					}
-				}
-				p, o := tryAt(unavail, clock)
-				if usesClock {
-					// a clock-reading operator: the truth is the value at this instant
-					evalClock = clock
-					truth = evalFull(full.Bind)
-					haveDef = false
-				}
-				if v := judge(p, &o, unavail); v != nil {
-					v.Msg = fmt.Sprintf("timeline step %d t=%d: %s", si, clock, v.Msg)
-					return v
-				}
-				st.T(" t=%d probe unavail=%v -> %s %s", clock, unavail, o.Class(), ValStr(o.Val))
-				if isC05 {
-					continue
-				}
-				if isDefinite(&o, api) {
-					if len(unavail) > 0 {
-						st.Probe("definite_with_unavailable")
-						if control && len(vars) >= 2 {
-							st.Nontrivial(wh)
+			})
+			var lastDef interface{}
+			haveDef := false
+			growing := true // availability has only grown since lastDef
+			for si, s := range w.Steps {
+				var lat int64
+				fmt.Sscan(s.Arg, &lat)
+				clock += lat
+				st.Ticks += lat
+				st.Steps++
+				switch s.Op {
+				case "warm":
+					if useSet && !avail[s.Name] {
+						if v, ok := full.Bind[s.Name]; ok {
+							realCtx.Set(eval.VariableKey(w.Cfg.KeyOf(s.Name)), s.Name, v.Go())
+							st.Faults["set"]++
 						}
 					}
-					if truth.Err == nil && truth.Panic == nil && !ValEq(o.Val, truth.Val) {
-						return viol(ns(unavail), "unsound", "timeline step %d t=%d: TryEval with %v unavailable returned %s, Eval on the true values returns %s", si, clock, unavail, ValStr(o.Val), ValStr(truth.Val))
+					avail[s.Name] = true
+					st.Faults["warm"]++
+				case "evict":
+					if useSet {
+						break // the map fetcher has no way to forget a value
 					}
-					if haveDef && growing && !ValEq(o.Val, lastDef) {
-						return viol(mw, "non-monotone", "timeline step %d t=%d: definite answer changed from %s to %s while availability only grew", si, clock, ValStr(lastDef), ValStr(o.Val))
+					if avail[s.Name] {
+						delete(avail, s.Name)
+						growing = false
+						st.Faults["evict"]++
 					}
-					lastDef, haveDef, growing = o.Val, true, true
-				}
-				if len(unavail) == 0 && si == len(w.Steps)-1 {
-					// bounded liveness: once everything has arrived the next probe
-					// is definite-or-error and agrees with Eval
-					if o.Val == eval.DNE && o.Err == nil {
-						return viol(ns(unavail), "all-available-dne", "timeline end: everything arrived, TryEval still reports DNE")
+				case "fetch_fail":
+					// the fetch failed; the prefetcher retries later: nothing arrives now
+					st.Faults["fetch_retry"]++
+				case "probe":
+					var unavail []string
+					for _, v := range vars {
+						if !avail[v] {
+							unavail = append(unavail, v)
+						}
 					}
-					if truth.Panic == nil && ((o.Err == nil) != (truth.Err == nil) && api == "tryeval") {
-						return viol(ns(unavail), "all-available-disagree", "timeline end: TryEval %s %s (err %v), Eval %s %s (err %v)", o.Class(), ValStr(o.Val), o.Err, truth.Class(), ValStr(truth.Val), truth.Err)
+					p, o := tryAt(unavail, clock)
+					if usesClock {
+						// a clock-reading operator: the truth is the value at this instant
+						evalClock = clock
+						truth = evalFull(full.Bind)
+						haveDef = false
 					}
-					st.Probe("timeline_final_probe_ok")
+					if v := judge(p, &o, unavail); v != nil {
+						v.Msg = fmt.Sprintf("timeline step %d t=%d: %s", si, clock, v.Msg)
+						return v
+					}
+					st.T(" t=%d probe unavail=%v -> %s %s", clock, unavail, o.Class(), ValStr(o.Val))
+					if isC05 {
+						continue
+					}
+					if isDefinite(&o, api) {
+						if len(unavail) > 0 {
+							st.Probe("definite_with_unavailable")
+							if control && len(vars) >= 2 {
+								st.Nontrivial(wh)
+							}
+						}
+						if truth.Err == nil && truth.Panic == nil && !ValEq(o.Val, truth.Val) {
+							return viol(ns(unavail), "unsound", "timeline step %d t=%d: TryEval with %v unavailable returned %s, Eval on the true values returns %s", si, clock, unavail, ValStr(o.Val), ValStr(truth.Val))
+						}
+						if haveDef && growing && !ValEq(o.Val, lastDef) {
+							return viol(mw, "non-monotone", "timeline step %d t=%d: definite answer changed from %s to %s while availability only grew", si, clock, ValStr(lastDef), ValStr(o.Val))
+						}
+						lastDef, haveDef, growing = o.Val, true, true
+					}
+					if len(unavail) == 0 && si == len(w.Steps)-1 {
+						// bounded liveness: once everything has arrived the next probe
+						// is definite-or-error and agrees with Eval
+						if o.Val == eval.DNE && o.Err == nil {
+							return viol(ns(unavail), "all-available-dne", "timeline end: everything arrived, TryEval still reports DNE")
+						}
+						if truth.Panic == nil && ((o.Err == nil) != (truth.Err == nil) && api == "tryeval") {
+							return viol(ns(unavail), "all-available-disagree", "timeline end: TryEval %s %s (err %v), Eval %s %s (err %v)", o.Class(), ValStr(o.Val), o.Err, truth.Class(), ValStr(truth.Val), truth.Err)
+						}
+						st.Probe("timeline_final_probe_ok")
+					}
 				}
 			}
-		}
-		st.Probe("timelines")
+			st.Probe("timelines")
+			realCtx = nil
+		} // requests
+		full = &w.Calls[0]
 	}
 	st.Sample(w.Canon())
 	return nil
